@@ -1191,6 +1191,14 @@ class Interp:
             fi = v.module.resolve_method(v.name, attr) if v.module else None
             if fi is not None:
                 return BoundMethod(v, attr) if fi.is_classmethod else FuncV(fi)
+            if attr == "__new__" and v.module is not None:
+                # Cls.__new__(Cls): an object of concrete shape without any attribute yet
+                def _new(it, cls, *a, **k):
+                    if not isinstance(cls, ClassV) or cls.module is None:
+                        raise Unsupported("__new__ of %r" % (cls,))
+                    return PyObjV(cls.name, cls.module, {})
+
+                return BuiltinV("%s.__new__" % v.name, _new)
             raise Unsupported("class attribute %s.%s" % (v.name, attr))
         if is_arr(v) or is_arr2(v):
             if attr == "shape":
@@ -2338,6 +2346,9 @@ class Interp:
                 rd = new.get
                 self._log_write(("a1", cur.field))
                 self.heap.write_a1_where(cur.field, cur.owner.ref, lambda j: True, lambda j: to_real(rd(j)))
+                return
+            if isinstance(o, PyObjV):
+                o.fields[t.attr] = self.binop(node.op, cur, rhs, node)
                 return
             self.write_field(o, t.attr, self.binop(node.op, cur, rhs, node), t)
             return
